@@ -80,10 +80,13 @@ Record env := mkEnv {
   enc : N;                           (* index the next ServiceControl / RPC call will get *)
   elog : list (N * N * bool);        (* calls so far, newest first: (kind, service number, faulted) *)
   elied : bool;                      (* ghost: a faulted get_process_pid hid a live process *)
-  ekilled : list N                   (* ghost: pids of processes that died on their own (OKill) *)
+  ekilled : list N;                  (* ghost: pids of processes that died on their own (OKill) *)
+  edisk : list svc                   (* the registry file as add_node last saved it *)
 }.
 
-Definition set_os (e : env) (o : os) : env := mkEnv o (enc e) (elog e) (elied e) (ekilled e).
+Definition set_os (e : env) (o : os) : env := mkEnv o (enc e) (elog e) (elied e) (ekilled e) (edisk e).
+(* NodeRegistry::save *)
+Definition set_disk (e : env) (d : list svc) : env := mkEnv (eos e) (enc e) (elog e) (elied e) (ekilled e) d.
 
 (* call kinds, as logged *)
 Definition K_PORT := 0. Definition K_INSTALL := 1. Definition K_PID := 2. Definition K_START := 3.
@@ -93,7 +96,7 @@ Definition K_RPC_NODE_INFO := 8. Definition K_RPC_NETWORK_INFO := 9.
 (* number the call, log it, report whether the plan makes it fail *)
 Definition tick (F : list N) (k a : N) (e : env) : bool * env :=
   let f := memN (enc e) F in
-  (f, mkEnv (eos e) (enc e + 1) ((k, a, f) :: elog e) (elied e) (ekilled e)).
+  (f, mkEnv (eos e) (enc e + 1) ((k, a, f) :: elog e) (elied e) (ekilled e) (edisk e)).
 
 (* ServiceControl::get_available_port *)
 Definition call_port (F : list N) (e : env) : option N * env :=
@@ -115,7 +118,7 @@ Inductive pidres := PidOk (p : N) | PidNotFound | PidErr.
 Definition call_pid (F : list N) (n : N) (e : env) : pidres * env :=
   let '(f, e1) := tick F K_PID n e in
   if f then (PidErr, mkEnv (eos e1) (enc e1) (elog e1)
-                      (elied e1 || match live (eos e1) n with Some _ => true | None => false end) (ekilled e1))
+                      (elied e1 || match live (eos e1) n with Some _ => true | None => false end) (ekilled e1) (edisk e1))
   else match live (eos e1) n with Some p => (PidOk p, e1) | None => (PidNotFound, e1) end.
 
 (* ServiceControl::start: unknown unit -> error; already running -> nothing to do; else a fresh pid *)
@@ -353,8 +356,10 @@ Fixpoint add_loop (F : list N) (o : addopts) (fuel : nat) (n : N) (np mp rp : op
           | Some mport =>
               let e3 := mkdirs n e2 in                       (* create dirs, copy the binary *)
               let '(ok, e4) := call_install F n np e3 in
+              (* a recorded service is saved at once: "any number of services could fail to be added" *)
               add_loop F o fuel' (n + 1) (incr np) (incr mp) (incr rp)
-                       (if ok then rg ++ [new_svc n np mport rpc (a_first o)] else rg) e4
+                       (if ok then rg ++ [new_svc n np mport rpc (a_first o)] else rg)
+                       (if ok then set_disk e4 (rg ++ [new_svc n np mport rpc (a_first o)]) else e4)
                        (if ok then n :: added else added) (failed || negb ok)
           end
       end
@@ -410,12 +415,13 @@ Definition kill_proc (n : N) (e : env) : env :=
   match live o n with
   | None => e
   | Some p => mkEnv (mkOs (installed o) (del n (procs o)) (next_pid o) (next_port o) (dirs o))
-                    (enc e) (elog e) (elied e) (p :: ekilled e)
+                    (enc e) (elog e) (elied e) (p :: ekilled e) (edisk e)
   end.
 
 Definition step (F : list N) (w : world) (o : op) : world * N :=
   match o with
-  | OAdd a => let '(c, _, rg, e) := add_node F a (reg w) (wenv w) in (mkW rg e, c)
+  (* the registry file holds the registry the command loaded (every step ends with a save) *)
+  | OAdd a => let '(c, _, rg, e) := add_node F a (reg w) (set_disk (wenv w) (reg w)) in (mkW rg e, c)
   | OStart i dyn => on_service w i (mgr_start F dyn)
   | OStop i => on_service w i (mgr_stop F)
   | ORemove i keep => on_service w i (mgr_remove F keep)
@@ -429,7 +435,7 @@ Definition step (F : list N) (w : world) (o : op) : world * N :=
 
 Definition FIRST_PID := 1000.
 Definition FIRST_PORT := 40000.
-Definition init : world := mkW [] (mkEnv (mkOs [] [] FIRST_PID FIRST_PORT []) 0 [] false []).
+Definition init : world := mkW [] (mkEnv (mkOs [] [] FIRST_PID FIRST_PORT []) 0 [] false [] []).
 
 Definition run_from (F : list N) (w : world) (ops : list op) : world :=
   fold_left (fun w o => fst (step F w o)) ops w.
@@ -520,11 +526,16 @@ Definition os_view (e : env) : list (list N) :=
 
 Definition nn_eqb := list_eqb (list_eqb N.eqb).
 
-(* one expected step: (outcome code, per-service views, service names, OS view) *)
-Definition stepview := (N * list (list N) * list string * list (list N))%type.
+(* after an add: is the registry file, as add_node itself left it, the in-memory registry? *)
+Definition disk_same (w : world) : bool :=
+  nn_eqb (map (svc_view (wenv w)) (edisk (wenv w))) (map (svc_view (wenv w)) (reg w)).
 
-Definition step_agrees (w : world) (c : N) (x : stepview) : bool :=
-  let '(c', sv, names, ov) := x in
+(* one expected step: (outcome code, per-service views, service names, OS view, file == memory after an add) *)
+Definition stepview := (N * list (list N) * list string * list (list N) * bool)%type.
+
+Definition step_agrees (o : op) (w : world) (c : N) (x : stepview) : bool :=
+  let '(c', sv, names, ov, dsame) := x in
+  (match o with OAdd _ => Bool.eqb (disk_same w) dsame | _ => true end) &&
   (c =? c') && nn_eqb (map (svc_view (wenv w)) (reg w)) sv &&
   list_eqb String.eqb (map (fun s => sname (number s)) (reg w)) names &&
   nn_eqb (os_view (wenv w)) ov.
@@ -532,7 +543,7 @@ Definition step_agrees (w : world) (c : N) (x : stepview) : bool :=
 Fixpoint agree_steps (F : list N) (w : world) (ops : list op) (xs : list stepview) : bool :=
   match ops, xs with
   | [], [] => true
-  | o :: ops', x :: xs' => let '(w', c) := step F w o in step_agrees w' c x && agree_steps F w' ops' xs'
+  | o :: ops', x :: xs' => let '(w', c) := step F w o in step_agrees o w' c x && agree_steps F w' ops' xs'
   | _, _ => false
   end.
 
